@@ -116,26 +116,26 @@ _R3 = [('{x}[C{k}H]1CCCO1', 'xHqp'), ('{x}[C{k}H]1OCCC1', 'xHpq'), ('[C{k}H]1({x
 
 
 def tetra_spellings():
-    """yield (text, family, cls): within a family (same constitution) cls in {0, 1} is the configuration class:
-    cls = [mark is '@'] xor parity(written neighbour order vs a fixed reference order)"""
+    """yield (text, family, form, cls): within a family (same constitution) cls in {0, 1} is the configuration class:
+    cls = [mark is '@'] xor parity(written neighbour order vs a fixed reference order); form = the template"""
     for k in ('@', '@@'):
         at = k == '@'
         for p in itertools.permutations(('F', 'Cl', 'Br', 'I')):
             sub = dict(zip('abcd', p))
             for tpl, order in _T4:
-                yield tpl.format(k=k, **sub), 'T4', int(at ^ parity([sub[c] for c in order], ('F', 'Cl', 'Br', 'I')))
+                yield tpl.format(k=k, **sub), 'T4', tpl, int(at ^ parity([sub[c] for c in order], ('F', 'Cl', 'Br', 'I')))
         for p in itertools.permutations(('F', 'Cl', 'Br')):
             sub = dict(zip('abc', p), H='H')
             for tpl, order in _T3:
-                yield tpl.format(k=k, **sub), 'T3', int(at ^ parity([sub[c] for c in order], ('F', 'Cl', 'Br', 'H')))
+                yield tpl.format(k=k, **sub), 'T3', tpl, int(at ^ parity([sub[c] for c in order], ('F', 'Cl', 'Br', 'H')))
         for p in itertools.permutations(('N', 'F')):
             sub = dict(zip('xy', p), p='p', q='q')
             for tpl, order in _R4:
-                yield tpl.format(k=k, **sub), 'R4', int(at ^ parity([sub[c] for c in order], ('N', 'F', 'p', 'q')))
+                yield tpl.format(k=k, **sub), 'R4', tpl, int(at ^ parity([sub[c] for c in order], ('N', 'F', 'p', 'q')))
         for x in ('N',):
             sub = dict(x=x, p='p', q='q', H='H')
             for tpl, order in _R3:
-                yield tpl.format(k=k, **sub), 'R3', int(at ^ parity([sub[c] for c in order], ('N', 'p', 'q', 'H')))
+                yield tpl.format(k=k, **sub), 'R3', tpl, int(at ^ parity([sub[c] for c in order], ('N', 'p', 'q', 'H')))
 
 
 # ---- spellings of ONE double bond -------------------------------------------------------------------------------------------
@@ -147,50 +147,57 @@ def _side(written_before, mark):
 
 
 def ct_spellings():
-    """yield (text, family, cls): cls True = reference substituents (first of each end) on the same side, False = opposite,
-    None = configuration not specified.  Spellings whose marks contradict each other are not generated."""
+    """yield (text, family, form, cls): cls True = reference substituents (first of each end) on the same side, False = opposite,
+    None = configuration not specified.  Spellings whose marks contradict each other are not generated.  Every form of one end
+    (substituent before the atom, in a branch, behind a ring-closure digit opened/closed on either atom) is combined with the
+    plain forms of the other end (the two ends are read independently, so the full cross product adds nothing)."""
     D = ('', '/', '\\')
     for na in (1, 2):
         for nb in (1, 2):
             A = ('F', 'Cl')[:na]
             B = ('Br', 'I')[:nb]
             fam = f'CT{na}{nb}'
-            lefts = []   # (prefix, text, suffix, {substituent: side or None})
+            lefts = []   # (form, plain?, prefix, text, suffix, {substituent: side or None})
             for d in D:
                 for e in (D if na == 2 else ('',)):
                     a2 = f'({e}{A[1]})' if na == 2 else ''
+                    q2 = f'(?{A[1]})' if na == 2 else ''
                     s2 = {A[1]: _side(False, e) if e else None} if na == 2 else {}
-                    lefts.append(('', f'{A[0]}{d}C{a2}', '', {A[0]: _side(True, d) if d else None, **s2}))
-                    lefts.append(('', f'C({d}{A[0]}){a2}', '', {A[0]: _side(False, d) if d else None, **s2}))
+                    lefts.append((f'{A[0]}?C{q2}', True, '', f'{A[0]}{d}C{a2}', '', {A[0]: _side(True, d) if d else None, **s2}))
+                    lefts.append((f'C(?{A[0]}){q2}', True, '', f'C({d}{A[0]}){a2}', '', {A[0]: _side(False, d) if d else None, **s2}))
                     # ring-closure bond as the substituent bond; mark on the double-bond atom's digit (opening) ...
-                    lefts.append(('', f'C{d}1{a2}', f'.{A[0]}1', {A[0]: _side(False, d) if d else None, **s2}))
+                    lefts.append((f'C?1{q2} .{A[0]}1', False, '', f'C{d}1{a2}', f'.{A[0]}1', {A[0]: _side(False, d) if d else None, **s2}))
                     # ... or on the substituent's digit (closing): read as the bond  A -> C
-                    lefts.append(('', f'C1{a2}', f'.{A[0]}{d}1', {A[0]: _side(True, d) if d else None, **s2}))
+                    lefts.append((f'C1{q2} .{A[0]}?1', False, '', f'C1{a2}', f'.{A[0]}{d}1', {A[0]: _side(True, d) if d else None, **s2}))
                     # substituent opens the ring bond before the double bond is written
-                    lefts.append((f'{A[0]}{d}1.', f'C1{a2}', '', {A[0]: _side(True, d) if d else None, **s2}))
-                    lefts.append((f'{A[0]}1.', f'C{d}1{a2}', '', {A[0]: _side(False, d) if d else None, **s2}))
+                    lefts.append((f'{A[0]}?1. C1{q2}', False, f'{A[0]}{d}1.', f'C1{a2}', '', {A[0]: _side(True, d) if d else None, **s2}))
+                    lefts.append((f'{A[0]}1. C?1{q2}', False, f'{A[0]}1.', f'C{d}1{a2}', '', {A[0]: _side(False, d) if d else None, **s2}))
             rights = []
             for f in D:
                 for g in (D if nb == 2 else ('',)):
+                    sf = _side(False, f) if f else None
+                    sg = _side(False, g) if g else None
                     if nb == 2:
-                        rights.append(('', f'C({f}{B[0]}){g}{B[1]}', '', {B[0]: _side(False, f) if f else None, B[1]: _side(False, g) if g else None}))
-                        rights.append(('', f'C{f}2{g}{B[1]}', f'.{B[0]}2', {B[0]: _side(False, f) if f else None, B[1]: _side(False, g) if g else None}))
-                        rights.append(('', f'C2{g}{B[1]}', f'.{B[0]}{f}2', {B[0]: _side(True, f) if f else None, B[1]: _side(False, g) if g else None}))
+                        rights.append((f'C(?{B[0]})?{B[1]}', True, '', f'C({f}{B[0]}){g}{B[1]}', '', {B[0]: sf, B[1]: sg}))
+                        rights.append((f'C?2?{B[1]} .{B[0]}2', False, '', f'C{f}2{g}{B[1]}', f'.{B[0]}2', {B[0]: sf, B[1]: sg}))
+                        rights.append((f'C2?{B[1]} .{B[0]}?2', False, '', f'C2{g}{B[1]}', f'.{B[0]}{f}2', {B[0]: _side(True, f) if f else None, B[1]: sg}))
                     else:
-                        rights.append(('', f'C{f}{B[0]}', '', {B[0]: _side(False, f) if f else None}))
-                        rights.append(('', f'C({f}{B[0]})', '', {B[0]: _side(False, f) if f else None}))
-                        rights.append(('', f'C{f}2', f'.{B[0]}2', {B[0]: _side(False, f) if f else None}))
-                        rights.append(('', f'C2', f'.{B[0]}{f}2', {B[0]: _side(True, f) if f else None}))
-            for lp, lt, ls, lsd in lefts:
+                        rights.append((f'C?{B[0]}', True, '', f'C{f}{B[0]}', '', {B[0]: sf}))
+                        rights.append((f'C(?{B[0]})', True, '', f'C({f}{B[0]})', '', {B[0]: sf}))
+                        rights.append((f'C?2 .{B[0]}2', False, '', f'C{f}2', f'.{B[0]}2', {B[0]: sf}))
+                        rights.append((f'C2 .{B[0]}?2', False, '', f'C2', f'.{B[0]}{f}2', {B[0]: _side(True, f) if f else None}))
+            for lf, lplain, lp, lt, ls, lsd in lefts:
                 sa = _end_side(lsd, A)
                 if sa == 'bad':
                     continue
-                for rp, rt, rs, rsd in rights:
+                for rf, rplain, rp, rt, rs, rsd in rights:
+                    if not (lplain or rplain):
+                        continue
                     sb = _end_side(rsd, B)
                     if sb == 'bad':
                         continue
                     cls = None if sa is None or sb is None else sa == sb
-                    yield f'{lp}{rp}{lt}={rt}{ls}{rs}', fam, cls
+                    yield f'{lp}{rp}{lt}={rt}{ls}{rs}', fam, f'{lf} = {rf}', cls
 
 
 def _end_side(sides, subs):
@@ -209,18 +216,21 @@ def _end_side(sides, subs):
 
 
 def diene_spellings():
-    """conjugated dienes sharing the middle single bond marks: RDKit-only oracle"""
+    """conjugated dienes sharing the marks of the middle single bond: RDKit-only oracle (all marks mutually consistent)"""
     D = ('/', '\\')
-    for a, b, c, d in itertools.product(D, repeat=4):
+    for a, b, c in itertools.product(D, repeat=3):
+        o = '/' if c == '\\' else '\\'
         yield f'F{a}C=C{b}C=C{c}Cl', 'DIENE'
         yield f'F{a}C=C{b}C(C)=C{c}Cl', 'DIENE'
         yield f'C({a}F)=C{b}C=C{c}Cl', 'DIENE'
-        yield f'F{a}C(C)=C{b}C=C({c}Cl){d}Br', 'DIENE'
+        yield f'F{a}C(C)=C{b}C=C({c}Cl){o}Br', 'DIENE'
+        yield f'F{a}C=C{b}C=C{c}C=C{a}Cl', 'DIENE'
+        yield f'C{a}1=C{b}C=C{c}Cl.F1', 'DIENE'
 
 
 # ---- spellings of ONE allene (four heavy substituents; no toolkit oracle exists: RDKit has no allene stereo) ---------------
 def allene_spellings():
-    """yield (text, family, cls): extended tetrahedral rule - the allene is read as one tetrahedral centre whose neighbours are
+    """yield (text, family, form, cls): extended tetrahedral rule - the allene is read as one tetrahedral centre whose neighbours are
     the substituents of the first-written end (in their written order) followed by those of the other end"""
     ref = ('F', 'Cl', 'Br', 'I')
     for k in ('@', '@@'):
@@ -229,16 +239,16 @@ def allene_spellings():
             for B in itertools.permutations(('Br', 'I')):
                 a, b = A
                 c, d = B
-                forms = [(f'{a}C({b})=[C{k}]=C({c}){d}', (a, b, c, d)),
-                         (f'C({a})({b})=[C{k}]=C({c}){d}', (a, b, c, d)),
-                         (f'{c}C({d})=[C{k}]=C({a}){b}', (c, d, a, b)),
-                         (f'[C{k}](=C({a}){b})=C({c}){d}', (a, b, c, d)),
-                         (f'{a}C({b})=[C{k}]=C1{d}.{c}1', (a, b, c, d)),
-                         (f'{a}C1=[C{k}]=C({c}){d}.{b}1', (a, b, c, d)),
-                         (f'C1({b})=[C{k}]=C({c}){d}.{a}1', (a, b, c, d)),
-                         (f'{a}C(=[C{k}]=C({c}){d}){b}', (a, c, d, b))]
-                for text, order in forms:
-                    yield text, 'AL4', int(at ^ parity(order, ref))
+                forms = [('{a}C({b})=[C{k}]=C({c}){d}', (a, b, c, d)),
+                         ('C({a})({b})=[C{k}]=C({c}){d}', (a, b, c, d)),
+                         ('{c}C({d})=[C{k}]=C({a}){b}', (c, d, a, b)),
+                         ('[C{k}](=C({a}){b})=C({c}){d}', (a, b, c, d)),
+                         ('{a}C({b})=[C{k}]=C1{d}.{c}1', (a, b, c, d)),
+                         ('{a}C1=[C{k}]=C({c}){d}.{b}1', (a, b, c, d)),
+                         ('C1({b})=[C{k}]=C({c}){d}.{a}1', (a, b, c, d)),
+                         ('{a}C(=[C{k}]=C({c}){d}){b}', (a, c, d, b))]
+                for tpl, order in forms:
+                    yield tpl.format(a=a, b=b, c=c, d=d, k=k), 'AL4', tpl, int(at ^ parity(order, ref))
 
 
 # ---- identity of stereoisomers: automorphisms acting on labelings -----------------------------------------------------------
